@@ -140,10 +140,20 @@ Section Sem.
 
   Definition dotv (a b : val) : F S := sumn d (fun k => a k O * b k O).
 
-  Definition sem2 (o : op2) (mat : bool) (a b : val) : val :=
+  (* Dot by the kinds of its arguments ([ma] / [mb]: the first / second argument is matrix-valued):
+       vector . vector   sum_k a_k b_k                      (a scalar: the same value at every index)
+       matrix . vector   (A b)_i = sum_k A_ik b_k           (contraction over the COLUMN index of the matrix)
+       vector . matrix   (a B)_i = sum_k a_k B_ki           (contraction over the ROW index of the matrix)
+     (core/algebra.py Dot_2d / Dot_3d; grad of a vector has entry (i,j) = d_i F_j).  matrix . matrix has no meaning in
+     the library (both matrices are read as flat vectors); the value given to it here is immaterial. *)
+  Definition dotm (ma mb : bool) (a b : val) : val :=
+    fun i _ => sumn d (fun k => a (if ma then i else k) (if ma then k else O) * b k (if mb then i else O)).
+
+  (* [mat] = (first argument is matrix-valued, second argument is matrix-valued); Inner only reads the first flag *)
+  Definition sem2 (o : op2) (mat : bool * bool) (a b : val) : val :=
     match o with
-    | ODot => fun _ _ => dotv a b
-    | OInner => if mat then fun _ _ => sumn d (fun i => sumn d (fun j => a i j * b i j)) else fun _ _ => dotv a b
+    | ODot => dotm (fst mat) (snd mat) a b
+    | OInner => if fst mat then fun _ _ => sumn d (fun i => sumn d (fun j => a i j * b i j)) else fun _ _ => dotv a b
     | OCross =>
         match d with
         | 2 => fun _ _ => a O O * b 1%nat O - a 1%nat O * b O O
@@ -178,7 +188,7 @@ Section Sem.
         let ps := pow_split x (gsem sd x i j) in pow_sem (gsem sd b i j) (fst ps) (snd ps)
     | GFn f a => fun i j => E S f (gsem sd a i j)
     | G1 o a => sem1 o sd (gsem sd a) (gsem SMinus a) (gsem SPlus a)
-    | G2 o a b => sem2 o (is_mat_shape a) (gsem sd a) (gsem sd b)
+    | G2 o a b => sem2 o (is_mat_shape a, is_mat_shape b) (gsem sd a) (gsem sd b)
     end.
 
   (* two expressions denote the same field *)
@@ -596,7 +606,7 @@ Section Sem.
       split; intros H sd i j; simpl in H;
         destruct (gshape d a) as [[| |]|] eqn:Ea; destruct (gshape d b) as [[| |]|] eqn:Eb; destruct o; simpl in H;
         try discriminate; simpl; try reflexivity;
-        try (unfold is_mat_shape, is_mat; rewrite Ea; reflexivity);
+        try (unfold is_mat_shape, is_mat; rewrite ?Ea, ?Eb; reflexivity);
         try (destruct d as [|[|[|[|?]]]]; try discriminate; reflexivity).
   Qed.
 
@@ -847,6 +857,342 @@ Section Sem.
       destruct o; inversion H; subst; try apply geq_refl. apply curl_grad.
   Qed.
 
+  (* ---------------------------------------------------------------- typing: where a matrix can come from *)
+  Lemma shape_mul_nonS a b s : s <> ShS -> shape_mul a b = Some s -> (a = Some s /\ b = Some ShS) \/ (a = Some ShS /\ b = Some s).
+  Proof.
+    intros Hs H. destruct a as [[| |]|], b as [[| |]|]; simpl in H; try discriminate; inversion H; subst; auto; now elim Hs.
+  Qed.
+
+  Lemma fold_mul_nonS (l : list gexpr) s : s <> ShS -> forall acc,
+    fold_left (fun a y => shape_mul a (gshape d y)) l acc = Some s ->
+    acc = Some s \/ Exists (fun y => gshape d y = Some s) l.
+  Proof.
+    intros Hs. induction l as [|x r IH]; intros acc H; simpl in H; [now left|].
+    apply IH in H. destruct H as [H|H]; [|right; now constructor 2].
+    apply (shape_mul_nonS _ _ s Hs) in H. destruct H as [[H1 H2]|[H1 H2]]; [now left|right; now constructor 1].
+  Qed.
+
+  Lemma gshape_mul_nonS l s : s <> ShS -> gshape d (GMul l) = Some s -> Exists (fun y => gshape d y = Some s) l.
+  Proof.
+    intros Hs H. cbn [gshape] in H. apply (fold_mul_nonS l s Hs) in H. destruct H as [H|H]; auto.
+    inversion H; subst. now elim Hs.
+  Qed.
+
+  Lemma gshape_add_head l s : gshape d (GAdd l) = Some s -> exists x r, l = x :: r /\ gshape d x = Some s.
+  Proof.
+    destruct l as [|x r]; [discriminate|]. cbn [gshape]. intros H. apply fold_add_all in H. exists x, r. tauto.
+  Qed.
+
+  Lemma existsb_in {A} (p : A -> bool) l x : In x l -> p x = true -> existsb p l = true.
+  Proof. intros Hx Hp. apply existsb_exists. eauto. Qed.
+
+  (* a vector- or matrix-valued expression contains something vector-valued *)
+  Lemma has_vec_complete e : gshape d e = Some ShV \/ gshape d e = Some ShM -> has_vec e = true.
+  Proof.
+    induction e as [p q|n|c|n|n|n c| |l IHl|l IHl|b x IHb IHx|f a IHa|o a IHa|o a b IHa IHb] using gexpr_ind';
+      intros H; try reflexivity; try (destruct H as [H|H]; discriminate).
+    - (* Add *)
+      assert (E : exists s, s <> ShS /\ gshape d (GAdd l) = Some s)
+        by (destruct H as [H|H]; eexists; (split; [|exact H]); discriminate).
+      destruct E as (s & Hs & E). destruct (gshape_add_head l s E) as (x & r & -> & Ex).
+      inversion IHl as [|? ? Ix _]; subst. cbn [has_vec existsb]. rewrite Ix; [reflexivity|].
+      destruct s; [now elim Hs|now left|now right].
+    - (* Mul *)
+      assert (E : exists s, s <> ShS /\ gshape d (GMul l) = Some s)
+        by (destruct H as [H|H]; eexists; (split; [|exact H]); discriminate).
+      destruct E as (s & Hs & E). apply (gshape_mul_nonS l s Hs) in E. apply Exists_exists in E.
+      destruct E as (x & Hx & Ex). cbn [has_vec]. apply (existsb_in _ l x Hx).
+      rewrite Forall_forall in IHl. apply IHl; auto. destruct s; [now elim Hs|now left|now right].
+    - (* Pow *)
+      cbn [gshape] in H. destruct (gshape d b) as [[| |]|]; destruct (gshape d x) as [[| |]|]; destruct H as [H|H]; discriminate.
+    - (* Fn *)
+      cbn [gshape] in H. destruct (gshape d a) as [[| |]|]; destruct H as [H|H]; discriminate.
+    - (* G1 *)
+      cbn [gshape] in H. cbn [has_vec].
+      destruct o; try reflexivity; apply IHa;
+        destruct (gshape d a) as [[| |]|]; simpl in H; try (destruct H as [H|H]; discriminate); auto;
+        try (destruct d as [|[|[|[|?]]]]; simpl in H; destruct H as [H|H]; discriminate).
+    - (* G2 *)
+      cbn [gshape] in H. cbn [has_vec]. apply orb_true_iff.
+      destruct (gshape d a) as [[| |]|] eqn:Ea; destruct (gshape d b) as [[| |]|] eqn:Eb;
+        try (left; apply IHa; auto; fail); try (right; apply IHb; auto; fail);
+        destruct o; simpl in H; try (destruct H as [H|H]; discriminate);
+        destruct (Nat.eqb d 2); destruct H as [H|H]; discriminate.
+  Qed.
+
+  (* [may_mat] (the library's _may_be_matrix) never misses a matrix *)
+  Lemma may_mat_complete e : is_mat d e = true -> may_mat e = true.
+  Proof.
+    unfold is_mat.
+    induction e as [p q|n|c|n|n|n c| |l IHl|l IHl|b x IHb IHx|f a IHa|o a IHa|o a b IHa IHb] using gexpr_ind';
+      intros H; try discriminate.
+    - destruct (gshape d (GAdd l)) as [[| |]|] eqn:E; try discriminate.
+      destruct (gshape_add_head l ShM E) as (x & r & -> & Ex).
+      inversion IHl as [|? ? Ix _]; subst. cbn [may_mat existsb]. rewrite Ix; [reflexivity|now rewrite Ex].
+    - destruct (gshape d (GMul l)) as [[| |]|] eqn:E; try discriminate.
+      apply (gshape_mul_nonS l ShM) in E; [|discriminate]. apply Exists_exists in E. destruct E as (x & Hx & Ex).
+      cbn [may_mat]. apply (existsb_in _ l x Hx). rewrite Forall_forall in IHl. apply IHl; auto. now rewrite Ex.
+    - cbn [gshape] in H. destruct (gshape d b) as [[| |]|]; destruct (gshape d x) as [[| |]|]; discriminate.
+    - cbn [gshape] in H. destruct (gshape d a) as [[| |]|]; discriminate.
+    - cbn [gshape] in H. destruct (gshape d a) as [[| |]|] eqn:Ea; destruct o; simpl in H; try discriminate;
+        cbn [may_mat]; try reflexivity;
+        try (apply IHa; reflexivity);
+        try (apply has_vec_complete; rewrite Ea; auto);
+        try (destruct d as [|[|[|[|?]]]]; discriminate).
+    - cbn [gshape] in H. destruct (gshape d a) as [[| |]|]; destruct (gshape d b) as [[| |]|]; destruct o; simpl in H;
+        try discriminate; try reflexivity; destruct (Nat.eqb d 2); try discriminate;
+        destruct d as [|[|[|[|?]]]]; discriminate.
+  Qed.
+
+  (* ---------------------------------------------------------------- structurally non-matrix expressions *)
+  Lemma nomat_not_mat e : nomat d e = true -> is_mat d e = false.
+  Proof.
+    intros H. destruct (is_mat d e) eqn:E; [|reflexivity]. exfalso. revert H E. unfold is_mat.
+    induction e as [p q|n|c|n|n|n c| |l IHl|l IHl|b x IHb IHx|f a IHa|o a IHa|o a b IHa IHb] using gexpr_ind';
+      intros H E; try discriminate.
+    - destruct (gshape d (GAdd l)) as [[| |]|] eqn:E'; try discriminate.
+      destruct (gshape_add_head l ShM E') as (x & r & -> & Ex).
+      inversion IHl as [|? ? Ix _]; subst. cbn [nomat forallb] in H. apply andb_true_iff in H. destruct H as [H _].
+      apply (Ix H). now rewrite Ex.
+    - destruct (gshape d (GMul l)) as [[| |]|] eqn:E'; try discriminate.
+      apply (gshape_mul_nonS l ShM) in E'; [|discriminate]. apply Exists_exists in E'. destruct E' as (x & Hx & Ex).
+      cbn [nomat] in H. rewrite forallb_forall in H. rewrite Forall_forall in IHl. apply (IHl x Hx (H x Hx)). now rewrite Ex.
+    - cbn [gshape] in E. destruct (gshape d b) as [[| |]|]; destruct (gshape d x) as [[| |]|]; discriminate.
+    - cbn [gshape] in E. destruct (gshape d a) as [[| |]|]; discriminate.
+    - cbn [gshape] in E. destruct o; cbn [nomat] in H; try discriminate;
+        try (unfold is_scalar in H; destruct (gshape d a) as [[| |]|]; simpl in E; discriminate);
+        try (destruct (gshape d a) as [[| |]|] eqn:Ea; simpl in E; try discriminate; apply (IHa H); reflexivity);
+        destruct (gshape d a) as [[| |]|]; simpl in E; try discriminate; destruct d as [|[|[|[|?]]]]; discriminate.
+    - cbn [gshape] in E. destruct o; cbn [nomat] in H; try discriminate;
+        destruct (gshape d a) as [[| |]|]; destruct (gshape d b) as [[| |]|]; simpl in E; try discriminate;
+        try (destruct (Nat.eqb d 2); discriminate); destruct d as [|[|[|[|?]]]]; discriminate.
+  Qed.
+
+  (* a scalar- or vector-valued expression is structurally non-matrix *)
+  Lemma shape_nomat e : gshape d e = Some ShS \/ gshape d e = Some ShV -> nomat d e = true.
+  Proof.
+    induction e as [p q|n|c|n|n|n c| |l IHl|l IHl|b x IHb IHx|f a IHa|o a IHa|o a b IHa IHb] using gexpr_ind';
+      intros H; try reflexivity.
+    - cbn [nomat]. apply forallb_forall. intros y Hy. rewrite Forall_forall in IHl. apply IHl; auto.
+      destruct l as [|x r]; [destruct Hy|]. cbn [gshape] in H.
+      destruct H as [H|H]; apply fold_add_all in H; destruct H as [Hx Hr]; rewrite Forall_forall in Hr;
+        (destruct Hy as [<-|Hy]; [auto|]); [left|right]; auto.
+    - cbn [nomat]. apply forallb_forall. intros y Hy. rewrite Forall_forall in IHl. apply IHl; auto.
+      cbn [gshape] in H. destruct H as [H|H].
+      + apply fold_mul_S in H. destruct H as [_ H]. rewrite Forall_forall in H. left. auto.
+      + apply fold_mul_V in H. destruct H as [_ H]. rewrite Forall_forall in H. destruct (H y Hy); auto.
+    - cbn [gshape] in H. cbn [nomat].
+      destruct o; try reflexivity;
+        try (unfold is_scalar; destruct (gshape d a) as [[| |]|]; simpl in H; try reflexivity; destruct H as [H|H]; discriminate);
+        try (apply IHa; destruct (gshape d a) as [[| |]|]; simpl in H; auto; destruct H as [H|H]; discriminate).
+    - cbn [gshape] in H. cbn [nomat]. destruct o; try reflexivity.
+      destruct (gshape d a) as [[| |]|]; destruct (gshape d b) as [[| |]|]; simpl in H; destruct H as [H|H]; discriminate.
+  Qed.
+
+  Lemma nomat_flat_mul l : forallb (nomat d) l = true -> forallb (nomat d) (flat_mul l) = true.
+  Proof.
+    unfold flat_mul. induction l as [|x r IH]; simpl; auto. intros H. apply andb_true_iff in H. destruct H as [Hx Hr].
+    rewrite forallb_app, (IH Hr), andb_true_r. destruct x; cbn [forallb]; try (rewrite Hx; reflexivity); exact Hx.
+  Qed.
+  Lemma nomat_flat_add l : forallb (nomat d) l = true -> forallb (nomat d) (flat_add l) = true.
+  Proof.
+    unfold flat_add. induction l as [|x r IH]; simpl; auto. intros H. apply andb_true_iff in H. destruct H as [Hx Hr].
+    rewrite forallb_app, (IH Hr), andb_true_r. destruct x; cbn [forallb]; try (rewrite Hx; reflexivity); exact Hx.
+  Qed.
+  Lemma forallb_filter' {A} (q p : A -> bool) l : forallb q l = true -> forallb q (filter p l) = true.
+  Proof. rewrite !forallb_forall. intros H x Hx. apply filter_In in Hx. apply H. tauto. Qed.
+
+  Lemma nomat_gmul l : forallb (nomat d) l = true -> nomat d (gmul l) = true.
+  Proof.
+    intros H. unfold gmul. apply nomat_flat_mul in H. destruct (existsb is_zero (flat_mul l)); [reflexivity|].
+    pose proof (forallb_filter' (nomat d) (fun x => negb (is_one x)) _ H) as Hf.
+    destruct (filter (fun x => negb (is_one x)) (flat_mul l)) as [|x [|y r]]; [reflexivity| |exact Hf].
+    simpl in Hf. now rewrite andb_true_r in Hf.
+  Qed.
+  Lemma nomat_gadd l : forallb (nomat d) l = true -> nomat d (gadd l) = true.
+  Proof.
+    intros H. unfold gadd. apply nomat_flat_add in H.
+    pose proof (forallb_filter' (nomat d) (fun x => negb (is_zero x)) _ H) as Hf.
+    destruct (filter (fun x => negb (is_zero x)) (flat_add l)) as [|x [|y r]]; [reflexivity| |exact Hf].
+    simpl in Hf. now rewrite andb_true_r in Hf.
+  Qed.
+  Lemma nomat_gmul_raw l : forallb (nomat d) l = true -> nomat d (gmul_raw l) = true.
+  Proof. destruct l as [|x [|y r]]; simpl; auto. now rewrite andb_true_r. Qed.
+  Lemma nomat_gadd_raw l : forallb (nomat d) l = true -> nomat d (gadd_raw l) = true.
+  Proof. destruct l as [|x [|y r]]; simpl; auto. now rewrite andb_true_r. Qed.
+
+  (* hence the non-commutative part of every summand is not a matrix *)
+  Lemma nomat_inner_flag e : nomat d e = true -> inner_flag d false e = true.
+  Proof.
+    induction e as [p q|n|c|n|n|n c| |l IHl|l IHl|b x IHb IHx|f a IHa|o a IHa|o a b IHa IHb] using gexpr_ind';
+      intros H;
+      try (cbn [inner_flag]; apply eqb_true_iff; apply nomat_not_mat; apply nomat_gmul; apply forallb_filter';
+           cbn [forallb]; rewrite H; reflexivity).
+    - cbn [inner_flag]. cbn [nomat] in H. rewrite forallb_forall in *. rewrite Forall_forall in IHl. auto.
+    - cbn [inner_flag]. apply eqb_true_iff. apply nomat_not_mat. apply nomat_gmul. apply forallb_filter'. exact H.
+  Qed.
+
+  (* ---------------------------------------------------------------- what Grad.eval returns on a scalar is not matrix-valued *)
+  Lemma fold_mul_allS l : Forall (fun y => gshape d y = Some ShS) l ->
+    fold_left (fun a y => shape_mul a (gshape d y)) l (Some ShS) = Some ShS.
+  Proof. induction 1 as [|x r Hx Hr IH]; simpl; auto. rewrite Hx. exact IH. Qed.
+  Lemma fold_add_allS l : Forall (fun y => gshape d y = Some ShS) l ->
+    fold_left (fun a y => shape_add a (gshape d y)) l (Some ShS) = Some ShS.
+  Proof. induction 1 as [|x r Hx Hr IH]; simpl; auto. rewrite Hx. exact IH. Qed.
+
+  Lemma gshape_mul_S l : gshape d (GMul l) = Some ShS <-> Forall (fun y => gshape d y = Some ShS) l.
+  Proof.
+    split; intros H.
+    - cbn [gshape] in H. apply fold_mul_S in H. tauto.
+    - cbn [gshape]. now apply fold_mul_allS.
+  Qed.
+  Lemma gshape_gmul_raw_S l : Forall (fun y => gshape d y = Some ShS) l -> gshape d (gmul_raw l) = Some ShS.
+  Proof.
+    intros H. destruct l as [|x [|y r]]; [reflexivity|now inversion H|]. cbn [gmul_raw]. now apply gshape_mul_S.
+  Qed.
+  Lemma gshape_gadd_raw_S l : Forall (fun y => gshape d y = Some ShS) l -> gshape d (gadd_raw l) = Some ShS.
+  Proof.
+    intros H. destruct l as [|x [|y r]]; [reflexivity|now inversion H|]. cbn [gadd_raw gshape].
+    inversion H as [|? ? Hx Hr]; subst. rewrite Hx. now apply fold_add_allS.
+  Qed.
+  Lemma gshape_gmul_S l : Forall (fun y => gshape d y = Some ShS) l -> gshape d (gmul l) = Some ShS.
+  Proof.
+    intros H. unfold gmul.
+    assert (Hf : Forall (fun y => gshape d y = Some ShS) (flat_mul l)).
+    { unfold flat_mul. induction H as [|x r Hx Hr IH]; simpl; [constructor|]. apply Forall_app. split; auto.
+      destruct x; try (constructor; [exact Hx|constructor]). now apply gshape_mul_S. }
+    destruct (existsb is_zero (flat_mul l)); [reflexivity|].
+    pose proof (Forall_filter _ (fun x => negb (is_one x)) _ Hf) as Hg.
+    destruct (filter (fun x => negb (is_one x)) (flat_mul l)) as [|x [|y r]]; [reflexivity|now inversion Hg|].
+    now apply gshape_mul_S.
+  Qed.
+
+  Lemma nomat_gpow b e : nomat d b = true -> nomat d (gpow b e) = true.
+  Proof. intros H. unfold gpow. destruct (is_zero e); [reflexivity|]. destruct (is_one e); [exact H|reflexivity]. Qed.
+
+  Lemma nomat_S e : gshape d e = Some ShS -> nomat d e = true.
+  Proof. intros H. apply shape_nomat. now left. Qed.
+  Lemma nomat_all_S l : Forall (fun y => gshape d y = Some ShS) l -> forallb (nomat d) l = true.
+  Proof. intros H. apply forallb_forall. rewrite Forall_forall in H. intros x Hx. apply nomat_S. auto. Qed.
+
+  Theorem mk_grad_nomat fuel : forall e r, mk_grad d fuel e = Ok r -> gshape d e = Some ShS -> nomat d r = true.
+  Proof.
+    induction fuel as [|k IH]; intros e r H Hs; [discriminate|].
+    assert (GO : nomat d (G1 OGrad e) = true) by (cbn [nomat]; unfold is_scalar; now rewrite Hs).
+    cbn [mk_grad] in H. destruct (negb (has_types e)).
+    { inversion H; subst. unfold no_types. destruct (is_number e); [reflexivity|exact GO]. }
+    destruct e as [p q|n|c|n|n|n c| |l|l|b x|f a|o' a|o' a b]; try (atom_arm H; inversion H; subst; exact GO).
+    - (* Add *)
+      assert (Sl : Forall (fun y => gshape d y = Some ShS) l).
+      { destruct l as [|x0 r0]; [constructor|]. cbn [gshape] in Hs. apply fold_add_all in Hs. destruct Hs. constructor; auto. }
+      apply bindL_ok in H. destruct H as [Hs' H]. apply bind_ok in H. destruct H as [rb [Hb H]].
+      inversion H; subst. clear H.
+      destruct (mapM (mk_grad d k) (filter has_types l)) as [s ra] eqn:Em. simpl in Hs'. simpl snd.
+      apply nomat_gadd. rewrite forallb_app. apply andb_true_iff. split.
+      + pose proof (mapM_ok _ _ _ _ Em Hs') as HF. clear Em.
+        assert (Hin : forall x, In x (filter has_types l) -> gshape d x = Some ShS).
+        { intros x Hx. apply filter_In in Hx. rewrite Forall_forall in Sl. apply Sl. tauto. }
+        induction HF as [|x y l1 l2 Hxy HF IHF]; [reflexivity|]. cbn [forallb]. apply andb_true_iff. split.
+        * eapply IH; eauto. apply Hin. now left.
+        * apply IHF. intros z Hz. apply Hin. now right.
+      + cbn [forallb]. rewrite andb_true_r. eapply IH; eauto. apply gshape_gadd_raw_S. now apply Forall_filter.
+    - (* Mul *)
+      apply gshape_mul_S in Hs.
+      set (cm := filter (is_comm d) l) in *.
+      set (ncm := filter (fun a => negb (is_comm d a)) l) in *.
+      set (coeffs := filter is_number cm) in *.
+      set (free := filter (fun a => negb (is_number a) && negb (has_types a)) cm) in *.
+      set (cm' := filter (fun a => negb (is_number a) && has_types a) cm) in *.
+      assert (Scm : Forall (fun y => gshape d y = Some ShS) cm) by (apply Forall_filter; exact Hs).
+      assert (Sn : Forall (fun y => gshape d y = Some ShS) ncm) by (apply Forall_filter; exact Hs).
+      assert (Sco : Forall (fun y => gshape d y = Some ShS) coeffs) by (apply Forall_filter; exact Scm).
+      assert (Sfr : Forall (fun y => gshape d y = Some ShS) free) by (apply Forall_filter; exact Scm).
+      assert (Scp : Forall (fun y => gshape d y = Some ShS) cm') by (apply Forall_filter; exact Scm).
+      remember (gmul_raw free) as b1 eqn:Eb1.
+      remember (gmul_raw cm') as b2 eqn:Eb2.
+      remember (gmul_raw ncm) as b3 eqn:Eb3.
+      remember (gmul coeffs) as a0 eqn:Ea0.
+      assert (S1 : gshape d b1 = Some ShS) by (subst b1; now apply gshape_gmul_raw_S).
+      assert (S2 : gshape d b2 = Some ShS) by (subst b2; now apply gshape_gmul_raw_S).
+      assert (S3 : gshape d b3 = Some ShS) by (subst b3; now apply gshape_gmul_raw_S).
+      assert (Na : nomat d a0 = true) by (subst a0; apply nomat_S; now apply gshape_gmul_S).
+      destruct ncm as [|n0 nr] eqn:En.
+      2:{ assert (Hr : r = gmul [a0; G1 OGrad (gmul [b1; b2; b3])]).
+          { destruct free, cm'; inversion H; reflexivity. }
+          subst r. apply nomat_gmul. cbn [forallb nomat]. rewrite Na. unfold is_scalar.
+          rewrite gshape_gmul_S; [reflexivity|]. repeat (constructor; auto). }
+      destruct free as [|f0 fr] eqn:Ef.
+      2:{ apply bind_ok in H. destruct H as [db2 [Hdb2 H]]. inversion H; subst r. clear H.
+          assert (Nd : nomat d db2 = true) by (eapply IH; eauto).
+          apply nomat_gadd. cbn [forallb]. rewrite !nomat_gmul; [reflexivity| |].
+          - cbn [forallb nomat]. unfold is_scalar. rewrite ?S1, ?Na, ?(nomat_S b2 S2), ?(nomat_S b1 S1), ?Nd. reflexivity.
+          - cbn [forallb nomat]. unfold is_scalar. rewrite ?S1, ?Na, ?(nomat_S b2 S2), ?(nomat_S b1 S1), ?Nd. reflexivity. }
+      destruct cm' as [|x [|y rest]] eqn:Ec.
+      + inversion H; subst r. reflexivity.
+      + apply bind_ok in H. destruct H as [rx [Hx H]]. inversion H; subst r. clear H.
+        apply nomat_gmul. cbn [forallb]. rewrite Na, andb_true_r. simpl.
+        eapply IH; eauto. now inversion Scp.
+      + apply bind_ok in H. destruct H as [d1 [H1 H]]. apply bind_ok in H. destruct H as [d2 [H2 H]].
+        inversion H; subst r. clear H.
+        inversion Scp as [|? ? Sx Srest]; subst.
+        assert (Sr : gshape d (gmul_raw (y :: rest)) = Some ShS) by now apply gshape_gmul_raw_S.
+        assert (N1 : nomat d d1 = true) by (eapply IH; eauto).
+        assert (N2 : nomat d d2 = true) by (eapply IH; eauto).
+        pose proof (nomat_S _ Sr) as Nr. cbn [gmul_raw] in Nr.
+        apply nomat_gadd. cbn [forallb]. rewrite !nomat_gmul; [reflexivity| |].
+        * cbn [forallb]. rewrite ?Na, ?N1, ?N2, ?Nr, ?(nomat_S x Sx). reflexivity.
+        * cbn [forallb]. rewrite ?Na, ?N1, ?N2, ?Nr, ?(nomat_S x Sx). reflexivity.
+    - (* Pow *)
+      assert (Sb : gshape d b = Some ShS /\ gshape d x = Some ShS).
+      { cbn [gshape] in Hs. destruct (gshape d b) as [[| |]|]; try discriminate. destruct (gshape d x) as [[| |]|]; try discriminate. auto. }
+      destruct Sb as [Sb Sx].
+      assert (Ne : nomat d (gpow b (gsub1 x)) = true) by (apply nomat_gpow; now apply nomat_S).
+      destruct (negb (is_number x)).
+      { apply bind_ok in H. destruct H as [db [Hdb H]]. apply bind_ok in H. destruct H as [dx [Hdx H]].
+        inversion H; subst r. clear H.
+        assert (Ndb : nomat d db = true) by (eapply IH; eauto).
+        assert (Ndx : nomat d dx = true) by (eapply IH; eauto).
+        apply nomat_gadd. cbn [forallb]. rewrite !nomat_gmul; [reflexivity| |].
+        - cbn [forallb nomat]. rewrite ?Ndx, ?(nomat_S x Sx), ?Ne, ?Ndb. reflexivity.
+        - cbn [forallb nomat]. rewrite ?Ndx, ?(nomat_S x Sx), ?Ne, ?Ndb. reflexivity. }
+      apply bind_ok in H. destruct H as [a [Ha H]].
+      assert (Na : nomat d a = true) by (eapply IH; eauto).
+      destruct a; inversion H; subst;
+        try (apply nomat_gmul; cbn [forallb]; rewrite (nomat_S x Sx), Na, Ne; reflexivity).
+      apply nomat_gadd. apply forallb_forall. intros t Ht. apply in_map_iff in Ht. destruct Ht as [u [<- Hu]].
+      cbn [nomat] in Na. rewrite forallb_forall in Na. apply nomat_gmul. cbn [forallb].
+      now rewrite (nomat_S x Sx), Ne, (Na u Hu).
+  Qed.
+
+  Lemma number_nomat e : is_number e = true -> nomat d e = true.
+  Proof.
+    induction e as [p q|n|c|n|n|n c| |l IHl|l IHl|b x IHb IHx|f a IHa|o a IHa|o a b IHa IHb] using gexpr_ind';
+      intros H; try reflexivity; try discriminate;
+      cbn [is_number] in H; cbn [nomat]; rewrite forallb_forall in *; rewrite Forall_forall in IHl; auto.
+  Qed.
+
+  (* Curl / Rot never return a matrix: their results are sums of c * Curl(...) *)
+  Lemma mk_lin_nomat (fuel : nat) (o : op1) : (o = OCurl \/ o = ORot) -> forall e r, mk_lin fuel o e = Ok r -> nomat d r = true.
+  Proof.
+    intros Ho. induction fuel as [|k IH]; intros e r H; [discriminate|].
+    assert (GO : forall z, nomat d (G1 o z) = true) by (intros z; destruct Ho as [->| ->]; reflexivity).
+    cbn [mk_lin] in H. destruct (negb (has_types e)).
+    { inversion H; subst. unfold no_types. destruct (is_number e); [reflexivity|apply GO]. }
+    destruct e as [p q|n|c|n|n|n c| |l|l|b x|f a|o' a|o' a b]; try (atom_arm H; inversion H; subst; apply GO).
+    - apply bindL_ok in H. destruct H as [Hs' H]. apply bind_ok in H. destruct H as [rb [Hb H]].
+      inversion H; subst. clear H.
+      destruct (mapM (mk_lin k o) (filter has_types l)) as [s ra] eqn:Em. simpl in Hs'. simpl snd.
+      apply nomat_gadd. rewrite forallb_app. apply andb_true_iff. split.
+      + pose proof (mapM_ok _ _ _ _ Em Hs') as HF. clear Em.
+        induction HF as [|x y l1 l2 Hxy HF IHF]; [reflexivity|]. cbn [forallb]. apply andb_true_iff. split; eauto.
+      + cbn [forallb]. rewrite andb_true_r. eauto.
+    - inversion H; subst. apply nomat_gmul. cbn [forallb]. rewrite GO, !andb_true_r.
+      apply nomat_gmul. apply forallb_forall. intros z Hz. apply filter_In in Hz. destruct Hz as [_ Hz].
+      now apply number_nomat.
+    - destruct o'; try (atom_arm H; inversion H; subst; apply GO).
+      destruct o; inversion H; subst; try reflexivity; apply GO.
+  Qed.
+
   (* ================================================================ Dot Cross Inner Outer Convect *)
   Ltac by_cases_d2 i tac :=
     destruct d as [|[|[|[|?]]]]; [tac|tac|tac|destruct i as [|[|[|?]]]; tac|tac].
@@ -855,10 +1201,10 @@ Section Sem.
     (forall i j, a i j = a' i j) -> (forall i j, b i j = b' i j) ->
     forall i j, sem2 o m a b i j = sem2 o m a' b' i j.
   Proof.
-    intros Ha Hb i j. destruct o; cbn [sem2]; unfold dotv.
+    intros Ha Hb i j. destruct o; cbn [sem2]; unfold dotv, dotm.
     - apply sumn_ext. intros k _. now rewrite Ha, Hb.
     - by_cases_d2 i ltac:(rewrite ?Ha, ?Hb; reflexivity).
-    - destruct m.
+    - destruct (fst m).
       + apply sumn_ext. intros k _. apply sumn_ext. intros k' _. now rewrite Ha, Hb.
       + apply sumn_ext. intros k _. now rewrite Ha, Hb.
     - now rewrite Ha, Hb.
@@ -870,10 +1216,10 @@ Section Sem.
 
   Lemma sem2_zero_l o m (b : val) i j : sem2 o m (fun _ _ => 0) b i j = 0.
   Proof.
-    destruct o; cbn [sem2]; unfold dotv.
+    destruct o; cbn [sem2]; unfold dotv, dotm.
     - transitivity (sumn d (fun _ => 0)); [|apply sumn_zero]. apply sumn_ext. intros; ring.
     - by_cases_d2 i ltac:(ring).
-    - destruct m.
+    - destruct (fst m).
       + transitivity (sumn d (fun _ => 0)); [|apply sumn_zero]. apply sumn_ext. intros k _.
         transitivity (sumn d (fun _ => 0)); [|apply sumn_zero]. apply sumn_ext. intros; ring.
       + transitivity (sumn d (fun _ => 0)); [|apply sumn_zero]. apply sumn_ext. intros; ring.
@@ -884,10 +1230,10 @@ Section Sem.
 
   Lemma sem2_zero_r o m (a : val) i j : sem2 o m a (fun _ _ => 0) i j = 0.
   Proof.
-    destruct o; cbn [sem2]; unfold dotv.
+    destruct o; cbn [sem2]; unfold dotv, dotm.
     - transitivity (sumn d (fun _ => 0)); [|apply sumn_zero]. apply sumn_ext. intros; ring.
     - by_cases_d2 i ltac:(ring).
-    - destruct m.
+    - destruct (fst m).
       + transitivity (sumn d (fun _ => 0)); [|apply sumn_zero]. apply sumn_ext. intros k _.
         transitivity (sumn d (fun _ => 0)); [|apply sumn_zero]. apply sumn_ext. intros; ring.
       + transitivity (sumn d (fun _ => 0)); [|apply sumn_zero]. apply sumn_ext. intros; ring.
@@ -899,10 +1245,10 @@ Section Sem.
   Lemma sem2_add_l o m (a a' b : val) i j :
     sem2 o m (fun i j => a i j + a' i j) b i j = sem2 o m a b i j + sem2 o m a' b i j.
   Proof.
-    destruct o; cbn [sem2]; unfold dotv.
+    destruct o; cbn [sem2]; unfold dotv, dotm.
     - rewrite <- sumn_add. apply sumn_ext. intros; ring.
     - by_cases_d2 i ltac:(ring).
-    - destruct m.
+    - destruct (fst m).
       + rewrite <- sumn_add. apply sumn_ext. intros k _. rewrite <- sumn_add. apply sumn_ext. intros; ring.
       + rewrite <- sumn_add. apply sumn_ext. intros; ring.
     - ring.
@@ -913,10 +1259,10 @@ Section Sem.
   Lemma sem2_add_r o m (a b b' : val) i j :
     sem2 o m a (fun i j => b i j + b' i j) i j = sem2 o m a b i j + sem2 o m a b' i j.
   Proof.
-    destruct o; cbn [sem2]; unfold dotv.
+    destruct o; cbn [sem2]; unfold dotv, dotm.
     - rewrite <- sumn_add. apply sumn_ext. intros; ring.
     - by_cases_d2 i ltac:(ring).
-    - destruct m.
+    - destruct (fst m).
       + rewrite <- sumn_add. apply sumn_ext. intros k _. rewrite <- sumn_add. apply sumn_ext. intros; ring.
       + rewrite <- sumn_add. apply sumn_ext. intros; ring.
     - ring.
@@ -928,10 +1274,10 @@ Section Sem.
   Lemma sem2_scal_l o m c (a b : val) i j : bilinear_op o = true ->
     sem2 o m (fun i j => c * a i j) b i j = c * sem2 o m a b i j.
   Proof.
-    intros Ho. destruct o; try discriminate; cbn [sem2]; unfold dotv.
+    intros Ho. destruct o; try discriminate; cbn [sem2]; unfold dotv, dotm.
     - rewrite <- sumn_scal. apply sumn_ext. intros; ring.
     - by_cases_d2 i ltac:(ring).
-    - destruct m.
+    - destruct (fst m).
       + rewrite <- sumn_scal. apply sumn_ext. intros k _. rewrite <- sumn_scal. apply sumn_ext. intros; ring.
       + rewrite <- sumn_scal. apply sumn_ext. intros; ring.
     - ring.
@@ -942,24 +1288,29 @@ Section Sem.
     (o = OConvect -> forall k, Dk k c = 0) ->
     sem2 o m a (fun i j => c * b i j) i j = c * sem2 o m a b i j.
   Proof.
-    intros Ho Hc. destruct o; try discriminate; cbn [sem2]; unfold dotv.
+    intros Ho Hc. destruct o; try discriminate; cbn [sem2]; unfold dotv, dotm.
     - rewrite <- sumn_scal. apply sumn_ext. intros; ring.
     - by_cases_d2 i ltac:(ring).
-    - destruct m.
+    - destruct (fst m).
       + rewrite <- sumn_scal. apply sumn_ext. intros k _. rewrite <- sumn_scal. apply sumn_ext. intros; ring.
       + rewrite <- sumn_scal. apply sumn_ext. intros; ring.
     - ring.
     - rewrite <- sumn_scal. apply sumn_ext. intros k _. rewrite (D_mul S), (Hc eq_refl). ring.
   Qed.
 
-  Lemma sem2_sym o m (a b : val) i j : (o = ODot \/ o = OInner) -> sem2 o m a b i j = sem2 o m b a i j.
+  (* Dot is symmetric on two vectors ONLY; Inner always *)
+  Lemma sem2_sym o m (a b : val) i j : ((o = ODot /\ m = (false, false)) \/ o = OInner) ->
+    sem2 o m a b i j = sem2 o m b a i j.
   Proof.
-    intros [->| ->]; cbn [sem2]; unfold dotv.
+    intros [[-> ->]| ->]; cbn [sem2 fst snd]; unfold dotv, dotm.
     - apply sumn_ext. intros; ring.
-    - destruct m.
+    - destruct (fst m).
       + apply sumn_ext. intros k _. apply sumn_ext. intros; ring.
       + apply sumn_ext. intros; ring.
   Qed.
+
+  Lemma sem2_dot_vv (a b : val) i j : sem2 ODot (false, false) a b i j = dotv a b.
+  Proof. reflexivity. Qed.
 
   Lemma sem2_cross_anti m (a b : val) i j : sem2 OCross m a b i j = - sem2 OCross m b a i j.
   Proof. cbn [sem2]. by_cases_d2 i ltac:(ring). Qed.
@@ -967,8 +1318,10 @@ Section Sem.
   Lemma sem2_cross_self m (a : val) i j : sem2 OCross m a a i j = 0.
   Proof. cbn [sem2]. by_cases_d2 i ltac:(ring). Qed.
 
-  Lemma sem2_flag o m m' (a b : val) i j : o <> OInner -> sem2 o m a b i j = sem2 o m' a b i j.
-  Proof. intros Ho. destruct o; try reflexivity. now elim Ho. Qed.
+  Lemma sem2_flag o m m' (a b : val) i j : o <> OInner -> o <> ODot -> sem2 o m a b i j = sem2 o m' a b i j.
+  Proof. intros Ho Ho'. destruct o; try reflexivity; [now elim Ho'|now elim Ho]. Qed.
+  Lemma sem2_flag_inner m m' (a b : val) i j : fst m = fst m' -> sem2 OInner m a b i j = sem2 OInner m' a b i j.
+  Proof. intros E. cbn [sem2]. now rewrite E. Qed.
 
   Lemma sem2_fsum_l o m (fs : list val) (b : val) i j :
     sem2 o m (fun i j => fsum (map (fun f : val => f i j) fs)) b i j = fsum (map (fun f : val => sem2 o m f b i j) fs).
@@ -1113,10 +1466,11 @@ Section Sem.
   Theorem mk_bil_core fuel : forall o a1 a2 r m,
     bilinear_op o = true -> mk_bil d sgt fuel o a1 a2 = Ok r ->
     (o = OConvect -> gdf a2) -> pull_sem a1 -> (o <> OConvect -> pull_sem a2) ->
-    (o = OInner -> inner_flag d m a1 = true /\ inner_flag d m a2 = true) ->
+    (o = OInner -> inner_flag d (fst m) a1 = true /\ inner_flag d (fst m) a2 = true) ->
+    (o = ODot -> inner_flag d (fst m) a1 = true /\ inner_flag d (snd m) a2 = true) ->
     forall sd i j, gsem sd r i j = sem2 o m (gsem sd a1) (gsem sd a2) i j.
   Proof.
-    induction fuel as [|k IH]; intros o a1 a2 r m Ho H HD P1 P2 HI sd i j; [discriminate|].
+    induction fuel as [|k IH]; intros o a1 a2 r m Ho H HD P1 P2 HI HDt sd i j; [discriminate|].
     cbn [mk_bil] in H.
     (* Cross(u, u) = 0 *)
     destruct (match o with OCross => geqb a1 a2 | _ => false end) eqn:Eq.
@@ -1153,6 +1507,7 @@ Section Sem.
           apply (IH o x a2 y m Ho Hxy); auto.
           * eapply pull_sem_in; eauto.
           * intros Hi. destruct (HI Hi) as [I1 I2]. split; auto. eapply inner_flag_in; eauto.
+          * intros Hi. destruct (HDt Hi) as (I1 & I2). split; auto. eapply inner_flag_in; eauto.
       - destruct (filter (fun i0 => negb (has_types i0)) l) as [|b0 br] eqn:Eb.
         + cbn [gadd_raw] in Hb. apply mk_bil_zero_l in Hb. subst rb. rewrite gzero_sem. simpl. ring.
         + assert (Hne : filter (fun i0 => negb (has_types i0)) l <> []) by (rewrite Eb; discriminate).
@@ -1162,6 +1517,7 @@ Section Sem.
             rewrite sem2_fsum_l, map_map. ring.
           * now apply pull_sem_gadd_raw.
           * intros Hi. destruct (HI Hi) as [I1 I2]. split; auto. apply guard_gadd_raw; auto.
+          * intros Hi. destruct (HDt Hi) as (I1 & I2). split; auto. apply guard_gadd_raw; auto.
     }
     assert (N1 : forall l, a1 <> GAdd l) by (intros l ->; discriminate).
     assert (H' : (match a2 with
@@ -1184,7 +1540,9 @@ Section Sem.
                           let b := gmul args2 in
                           let c := gmul [gmul c1; gmul c2] in
                           match o with
-                          | ODot | OInner => if sgt a b then Ok (gmul [c; G2 o b a]) else Ok (gmul [c; G2 o a b])
+                          | ODot =>
+                              if negb (may_mat a || may_mat b) && sgt a b then Ok (gmul [c; G2 o b a]) else Ok (gmul [c; G2 o a b])
+                          | OInner => if sgt a b then Ok (gmul [c; G2 o b a]) else Ok (gmul [c; G2 o a b])
                           | OCross => if sgt a b then Ok (gmul [gneg c; G2 o b a]) else Ok (gmul [c; G2 o a b])
                           | _ => Ok (gmul [c; G2 o a b])
                           end
@@ -1211,6 +1569,7 @@ Section Sem.
           * intros Hc. eapply gdf_in_add; eauto.
           * intros Hc. apply (pull_sem_in l x (P2 Hc) Hx).
           * intros Hi. destruct (HI Hi) as [I1 I2]. split; auto. eapply inner_flag_in; eauto.
+          * intros Hi. destruct (HDt Hi) as (I1 & I2). split; auto. eapply inner_flag_in; eauto.
       - destruct (filter (fun i0 => negb (has_types i0)) l) as [|b0 br] eqn:Eb.
         + cbn [gadd_raw] in Hb. apply mk_bil_zero_r in Hb; auto. subst rb. rewrite gzero_sem. simpl. ring.
         + assert (Hne : filter (fun i0 => negb (has_types i0)) l <> []) by (rewrite Eb; discriminate).
@@ -1221,6 +1580,7 @@ Section Sem.
           * intros Hc. apply gdf_filter_add. auto.
           * intros Hc. apply pull_sem_gadd_raw. auto.
           * intros Hi. destruct (HI Hi) as [I1 I2]. split; auto. apply guard_gadd_raw; auto.
+          * intros Hi. destruct (HDt Hi) as (I1 & I2). split; auto. apply guard_gadd_raw; auto.
     }
     assert (N2 : forall l, a2 <> GAdd l) by (intros l ->; discriminate).
     (* products: pull the commutative factors out *)
@@ -1236,7 +1596,9 @@ Section Sem.
                      let b := gmul args2 in
                      let c := gmul [gmul c1; gmul c2] in
                      match o with
-                     | ODot | OInner => if sgt a b then Ok (gmul [c; G2 o b a]) else Ok (gmul [c; G2 o a b])
+                     | ODot =>
+                         if negb (may_mat a || may_mat b) && sgt a b then Ok (gmul [c; G2 o b a]) else Ok (gmul [c; G2 o a b])
+                     | OInner => if sgt a b then Ok (gmul [c; G2 o b a]) else Ok (gmul [c; G2 o a b])
                      | OCross => if sgt a b then Ok (gmul [gneg c; G2 o b a]) else Ok (gmul [c; G2 o a b])
                      | _ => Ok (gmul [c; G2 o a b])
                      end
@@ -1249,7 +1611,9 @@ Section Sem.
                   let b := gmul args2 in
                   let c := gmul [gmul c1; gmul c2] in
                   match o with
-                  | ODot | OInner => if sgt a b then Ok (gmul [c; G2 o b a]) else Ok (gmul [c; G2 o a b])
+                  | ODot =>
+                      if negb (may_mat a || may_mat b) && sgt a b then Ok (gmul [c; G2 o b a]) else Ok (gmul [c; G2 o a b])
+                  | OInner => if sgt a b then Ok (gmul [c; G2 o b a]) else Ok (gmul [c; G2 o a b])
                   | OCross => if sgt a b then Ok (gmul [gneg c; G2 o b a]) else Ok (gmul [c; G2 o a b])
                   | _ => Ok (gmul [c; G2 o a b])
                   end) = Ok r).
@@ -1279,27 +1643,43 @@ Section Sem.
                    g1 * g2 * sem2 o m (gsem sd (gmul args1)) (gsem sd (gmul args2)) i j).
     { erewrite sem2_ext; [|intros; apply V1|intros; apply V2].
       rewrite sem2_scal_l by exact Ho. rewrite sem2_scal_r by auto. ring. }
-    assert (F1 : o = OInner -> is_mat_shape (gmul args1) = m).
-    { intros Hi. destruct (HI Hi) as [I1 _]. unfold is_mat_shape.
-      unfold args1, fa, factors.
+    (* the kind (matrix or not) of the product of the non-commutative factors of a non-sum argument *)
+    assert (K1 : forall m', inner_flag d m' a1 = true -> is_mat_shape (gmul args1) = m').
+    { intros m' I1. unfold is_mat_shape. unfold args1, fa, factors.
       destruct a1; try (exfalso; eapply N1; reflexivity); cbn [inner_flag] in I1; apply Bool.eqb_prop in I1; exact I1. }
-    assert (F2 : o = OInner -> is_mat_shape (gmul args2) = m).
-    { intros Hi. destruct (HI Hi) as [_ I2]. unfold is_mat_shape.
-      unfold args2, fb, factors. rewrite Hi. cbn [pulled2].
+    assert (K2 : forall m', (o = OInner \/ o = ODot) -> inner_flag d m' a2 = true -> is_mat_shape (gmul args2) = m').
+    { intros m' Hi I2. unfold is_mat_shape. unfold args2, fb, factors.
+      assert (Ep : pulled2 d o = is_comm d) by (destruct Hi as [->| ->]; reflexivity). rewrite Ep.
       destruct a2; try (exfalso; eapply N2; reflexivity); cbn [inner_flag] in I2; apply Bool.eqb_prop in I2; exact I2. }
     rewrite Main.
     destruct o; try discriminate.
-    - (* Dot *)
-      destruct (sgt (gmul args1) (gmul args2)); inversion H; subst; rewrite gmul_sem; cbn [map DOpP.fprod]; rewrite Cv;
-        cbn [gsem]; rewrite (sem2_flag ODot _ m) by discriminate; [rewrite (sem2_sym ODot) by auto|]; ring.
+    - (* Dot: the canonical order is imposed only when neither factor may be matrix-valued, and then both are
+         vectors ([may_mat_complete]); the product of two vectors is symmetric *)
+      destruct (HDt eq_refl) as (I1 & I2). destruct m as [m1 m2]. cbn [fst snd] in I1, I2.
+      pose proof (K1 _ I1) as E1'. pose proof (K2 _ (or_intror eq_refl) I2) as E2'.
+      destruct (negb (may_mat (gmul args1) || may_mat (gmul args2)) && sgt (gmul args1) (gmul args2)) eqn:Esg;
+        injection H as <-; rewrite gmul_sem; cbn [map DOpP.fprod]; rewrite Cv; cbn [gsem]; rewrite E1', E2'.
+      + apply andb_true_iff in Esg. destruct Esg as [Em _]. apply negb_true_iff in Em. apply orb_false_iff in Em.
+        destruct Em as [M1 M2].
+        assert (Z1 : m1 = false).
+        { rewrite <- E1'. unfold is_mat_shape. destruct (is_mat d (gmul args1)) eqn:E; auto.
+          apply may_mat_complete in E. congruence. }
+        assert (Z2 : m2 = false).
+        { rewrite <- E2'. unfold is_mat_shape. destruct (is_mat d (gmul args2)) eqn:E; auto.
+          apply may_mat_complete in E. congruence. }
+        rewrite Z1, Z2. rewrite (sem2_sym ODot) by (left; auto). ring.
+      + ring.
     - (* Cross *)
       destruct (sgt (gmul args1) (gmul args2)); inversion H; subst; rewrite gmul_sem; cbn [map DOpP.fprod];
         rewrite ?gneg_sem, Cv; cbn [gsem]; rewrite (sem2_flag OCross _ m) by discriminate.
       + rewrite (sem2_cross_anti m (gsem sd (gmul args1))). ring.
       + ring.
     - (* Inner *)
+      destruct (HI eq_refl) as [I1 I2].
+      pose proof (K1 _ I1) as E1'. pose proof (K2 _ (or_introl eq_refl) I2) as E2'.
       destruct (sgt (gmul args1) (gmul args2)); inversion H; subst; rewrite gmul_sem; cbn [map DOpP.fprod]; rewrite Cv;
-        cbn [gsem]; rewrite ?(F1 eq_refl), ?(F2 eq_refl); [rewrite (sem2_sym OInner) by auto|]; ring.
+        cbn [gsem]; rewrite ?E1', ?E2';
+        rewrite (sem2_flag_inner _ m) by reflexivity; [rewrite (sem2_sym OInner) by auto|]; ring.
     - (* Outer *)
       inversion H; subst. rewrite gmul_sem. cbn [map DOpP.fprod]. rewrite Cv. cbn [gsem].
       rewrite (sem2_flag OOuter _ m) by discriminate. ring.
@@ -1308,18 +1688,40 @@ Section Sem.
       rewrite (sem2_flag OConvect _ m) by discriminate. ring.
   Qed.
 
+  (* Dot, Cross, Outer, Convect.  For Dot: [shape_stable] = the non-commutative part of every summand of an argument
+     has the kind (matrix or not) of the whole argument *)
   Theorem mk_bil_sound fuel o a1 a2 r :
     (o = ODot \/ o = OCross \/ o = OOuter \/ o = OConvect) ->
     mk_bil d sgt fuel o a1 a2 = Ok r -> (o = OConvect -> gdf a2) ->
     pull_ok d a1 = true -> (o <> OConvect -> pull_ok d a2 = true) ->
+    (o = ODot -> shape_stable d a1 = true /\ shape_stable d a2 = true) ->
     geq r (G2 o a1 a2).
   Proof.
-    intros Ho H D2 P1 P2 sd i j. cbn [gsem]. apply pull_ok_sem in P1.
+    intros Ho H D2 P1 P2 G sd i j. cbn [gsem]. apply pull_ok_sem in P1.
     assert (P2' : o <> OConvect -> pull_sem a2) by (intros Hc; apply pull_ok_sem; auto).
-    apply (mk_bil_core fuel o a1 a2 r (is_mat_shape a1)); auto.
+    apply (mk_bil_core fuel o a1 a2 r (is_mat_shape a1, is_mat_shape a2)); auto.
     - destruct Ho as [->|[->|[->| ->]]]; reflexivity.
     - intros ->. destruct Ho as [Ho|[Ho|[Ho|Ho]]]; discriminate.
   Qed.
+
+  (* the guard holds of vector-valued (and of scalar-valued) arguments *)
+  Lemma shape_stable_typed a : gshape d a = Some ShS \/ gshape d a = Some ShV -> shape_stable d a = true.
+  Proof.
+    intros H. unfold shape_stable. pose proof (shape_nomat a H) as N.
+    rewrite (nomat_not_mat a N). now apply nomat_inner_flag.
+  Qed.
+
+  (* Dot of two non-matrix arguments: the vector . vector product (the internal uses: Div, Laplace, minus(Dn)) *)
+  Lemma mk_dot_vv fuel a1 a2 r :
+    mk_bil d sgt fuel ODot a1 a2 = Ok r -> pull_sem a1 -> pull_sem a2 ->
+    inner_flag d false a1 = true -> inner_flag d false a2 = true ->
+    forall sd i j, gsem sd r i j = dotv (gsem sd a1) (gsem sd a2).
+  Proof.
+    intros H P1 P2 I1 I2 sd i j.
+    rewrite (mk_bil_core fuel ODot a1 a2 r (false, false) eq_refl H); auto; discriminate.
+  Qed.
+  Lemma is_scalar_shape e : is_scalar d e = true -> gshape d e = Some ShS.
+  Proof. unfold is_scalar. destruct (gshape d e) as [[| |]|]; try discriminate. reflexivity. Qed.
 
   Theorem mk_inner_sound fuel a1 a2 r :
     mk_bil d sgt fuel OInner a1 a2 = Ok r ->
@@ -1328,8 +1730,9 @@ Section Sem.
     geq r (G2 OInner a1 a2).
   Proof.
     intros H P1 P2 I1 I2 sd i j. cbn [gsem]. apply pull_ok_sem in P1, P2.
-    apply (mk_bil_core fuel OInner a1 a2 r (is_mat_shape a1)); auto; discriminate.
+    apply (mk_bil_core fuel OInner a1 a2 r (is_mat_shape a1, is_mat_shape a2)); auto; discriminate.
   Qed.
+
 
   (* ================================================================ Grad *)
   (* the integer literals form a ring morphism *)
@@ -1956,9 +2359,11 @@ Section Sem.
     simpl in Hc. apply andb_true_iff in Hc. destruct Hc as [Hd _]. apply Nat.eqb_eq in Hd.
     intros sd i j. cbn [gsem sem1]. rewrite Hd. reflexivity.
   Qed.
-  Lemma Good_G2 o a b : is_comm d (G2 o a b) = true -> (o = ODot \/ o = OInner \/ o = OBracket) -> Good (G2 o a b).
+  Lemma Good_G2 o a b : is_comm d (G2 o a b) = true ->
+    ((o = ODot /\ is_mat_shape a = false /\ is_mat_shape b = false) \/ o = OInner \/ o = OBracket) -> Good (G2 o a b).
   Proof.
-    intros _ Ho. split; [exact I|]. intros _ sd i j. destruct Ho as [->|[->| ->]]; cbn [gsem sem2]; try reflexivity.
+    intros _ Ho. split; [exact I|]. intros _ sd i j.
+    destruct Ho as [(-> & Ea & Eb)|[->| ->]]; cbn [gsem sem2 fst snd]; rewrite ?Ea, ?Eb; try reflexivity.
     destruct (is_mat_shape a); reflexivity.
   Qed.
 
@@ -2141,12 +2546,11 @@ Section Sem.
 
   (* div (a x b) = b . curl a - a . curl b   (d = 3) *)
   Lemma div_cross (a b : val) : d = 3%nat ->
-    forall m1 m2 sd s1 s2 (x1 x2 x3 x4 x5 x6 : val) jj kk,
+    forall m1 sd s1 s2 (x1 x2 x3 x4 x5 x6 : val) jj kk,
     sem1 ODiv sd (sem2 OCross m1 a b) x1 x2 jj kk =
-    sem2 ODot m2 b (sem1 OCurl s1 a x3 x4) O O -
-    sem2 ODot m2 a (sem1 OCurl s2 b x5 x6) O O.
+    dotv b (sem1 OCurl s1 a x3 x4) - dotv a (sem1 OCurl s2 b x5 x6).
   Proof.
-    intros Hd m1 m2 sd s1 s2 x1 x2 x3 x4 x5 x6 jj kk. cbn [sem1 sem2]. unfold dotv. rewrite Hd. cbn [sumn].
+    intros Hd m1 sd s1 s2 x1 x2 x3 x4 x5 x6 jj kk. cbn [sem1 sem2]. unfold dotv. rewrite Hd. cbn [sumn].
     rewrite !(Dsub S), !(D_mul S). ring.
   Qed.
 
@@ -2240,8 +2644,9 @@ Section Sem.
           pose proof (mk_grad_good k f gf Egf Cf) as [Cg _].
           rewrite gmul_sem. cbn [map DOpP.fprod]. rewrite HA0.
           rewrite gadd_sem. cbn [map DOpP.fsum]. rewrite gmul_sem. cbn [map DOpP.fprod].
-          rewrite (mk_bil_core k ODot (GVF n) gf dt false eq_refl Edt); try discriminate; try exact I;
-            try (intros _; now apply CS2_pull).
+          rewrite (mk_dot_vv k (GVF n) gf dt Edt);
+            [|exact I|now apply CS2_pull|reflexivity
+             |apply nomat_inner_flag; apply (mk_grad_nomat k f gf Egf); now apply is_scalar_shape].
           rewrite HL. rewrite (div_fF (gsem sd (GVF n)) (gsem sd f) i (is_scalar_sem f Sf sd)).
           cbn [gsem sem1 sem2]. unfold dotv.
           rewrite (is_scalar_sem f Sf sd i j).
@@ -2264,6 +2669,7 @@ Section Sem.
       apply div_curl. intros E. rewrite E in Hg. discriminate.
     - (* Div(Cross) *)
       destruct o'; try (atom_arm H; inversion H; subst; apply geq_refl).
+      apply andb_true_iff in Hg. destruct Hg as [Hg Ib]. apply andb_true_iff in Hg. destruct Hg as [Hg Ia].
       apply andb_true_iff in Hg. destruct Hg as [Hg Cb]. apply andb_true_iff in Hg. destruct Hg as [D3' Ca].
       apply Nat.eqb_eq in D3'. destruct Hd as [Da Db].
       apply bind_ok in H. destruct H as [ca [Hca H]]. apply bind_ok in H. destruct H as [cb [Hcb H]].
@@ -2274,11 +2680,15 @@ Section Sem.
       pose proof (mk_lin_good k OCurl a ca (or_introl eq_refl) Hca) as [Ga _].
       pose proof (mk_lin_good k OCurl b cb (or_introl eq_refl) Hcb) as [Gb _].
       intros sd i j. rewrite gadd_sem. cbn [map DOpP.fsum]. rewrite gneg_sem.
-      rewrite (mk_bil_core k ODot b ca t1 false eq_refl Ht1); try discriminate; try (now apply cs_ok_pull); try (intros _; now apply CS2_pull).
-      rewrite (mk_bil_core k ODot a cb t2 false eq_refl Ht2); try discriminate; try (now apply cs_ok_pull); try (intros _; now apply CS2_pull).
-      cbn [gsem]. rewrite (div_cross (gsem sd a) (gsem sd b) D3' (is_mat_shape a) false sd sd sd
+      rewrite (mk_dot_vv k b ca t1 Ht1);
+        [|now apply cs_ok_pull|now apply CS2_pull|exact Ib
+         |apply nomat_inner_flag; apply (mk_lin_nomat k OCurl (or_introl eq_refl) a ca Hca)].
+      rewrite (mk_dot_vv k a cb t2 Ht2);
+        [|now apply cs_ok_pull|now apply CS2_pull|exact Ia
+         |apply nomat_inner_flag; apply (mk_lin_nomat k OCurl (or_introl eq_refl) b cb Hcb)].
+      cbn [gsem]. rewrite (div_cross (gsem sd a) (gsem sd b) D3' (is_mat_shape a, is_mat_shape b) sd sd sd
                              _ _ (gsem SMinus a) (gsem SPlus a) (gsem SMinus b) (gsem SPlus b)).
-      cbn [sem2]. unfold dotv.
+      unfold dotv.
       assert (E1 : sumn d (fun k0 => gsem sd b k0 O * gsem sd ca k0 O) =
                    sumn d (fun k0 => gsem sd b k0 O * sem1 OCurl sd (gsem sd a) (gsem SMinus a) (gsem SPlus a) k0 O)).
       { apply sumn_ext. intros k0 _. rewrite (Sa sd k0 O). reflexivity. }
@@ -2377,7 +2787,10 @@ Section Sem.
       rewrite gmul_sem. cbn [map DOpP.fprod]. rewrite gmul_sem.
       rewrite gadd_sem. cbn [map DOpP.fsum]. rewrite !gmul_sem. cbn [map DOpP.fprod].
       rewrite (ILg sd i j), (ILf sd i j), gint_sem.
-      rewrite (mk_bil_core k ODot gf gg dt false eq_refl Hdt); try discriminate; try (now apply CS2_pull); try (intros _; now apply CS2_pull).
+      rewrite (mk_dot_vv k gf gg dt Hdt);
+        [|now apply CS2_pull|now apply CS2_pull
+         |apply nomat_inner_flag; apply (mk_grad_nomat k f gf Hgf); now apply is_scalar_shape
+         |apply nomat_inner_flag; apply (mk_grad_nomat k g gg Hgg); now apply is_scalar_shape].
       cbn [gmul_raw gsem sem1 sem2 map DOpP.fprod]. unfold dotv.
       rewrite (is_scalar_sem f Sf sd i j), (is_scalar_sem g Sg sd i j).
       rewrite laplace_fg.
@@ -2756,7 +3169,10 @@ Section Sem.
       { destruct o; try discriminate; cbn in Hgu; congruence. }
       subst gu.
       intros sd i j.
-      rewrite (mk_bil_core _ ODot _ _ r false eq_refl H); try discriminate; try exact I; try (intros _; exact I).
+      assert (If : inner_flag d false (G1 OGrad (G1 o (GSF n))) = true /\ inner_flag d false (G1 o GNormal) = true)
+        by (destruct o; try discriminate; split; reflexivity).
+      destruct If as [If1 If2].
+      rewrite (mk_dot_vv _ _ _ r H); [|exact I|exact I|exact If1|exact If2].
       destruct o; try discriminate; cbn [gsem sem1 sem2 map DOpP.fprod DOpP.fsum gmul_raw]; unfold dotv; apply sumn_ext; intros; reflexivity.
   Qed.
   (* Jump and Average: no guard *)
@@ -2767,6 +3183,14 @@ Section Sem.
     - destruct Ho as [->| ->]; reflexivity.
     - now apply iface_guard_jump_avg.
   Qed.
+  (* ================================================================ components of a restriction *)
+  (* minus(E)[i] / plus(E)[i] is component i of the restriction of E to THAT side *)
+  Theorem mk_getitem_sound o e i r : is_side_op o = true -> mk_getitem o e i = Ok r ->
+    forall sd i' j', gsem sd r i' j' = gsem sd (G1 o e) i O.
+  Proof.
+    intros Ho H sd i' j'. destruct e; try discriminate. inversion H; subst r.
+    destruct o; try discriminate; reflexivity.
+  Qed.
 End Sem.
 
 (* statements about constructors that never compare strings, freed from the (unused) order parameter *)
@@ -2774,6 +3198,8 @@ Definition mk_lin_sound_all S lg d := mk_lin_sound S lg d (fun _ _ => false).
 Definition mk_grad_sound_all S lg d := mk_grad_sound S lg d (fun _ _ => false).
 Definition mk_grad_good_all S lg d := mk_grad_good S lg d (fun _ _ => false).
 Definition mk_lin_good_all S lg d := mk_lin_good S lg d (fun _ _ => false).
+Definition shape_stable_typed_all d := shape_stable_typed d (fun _ _ => false).
+Definition may_mat_complete_all d := may_mat_complete d (fun _ _ => false).
 
 (* ================================================================== refutations *)
 (* A free-jet evaluation: every atom (a function, each of its derivatives, a constant, a coordinate, a
@@ -2887,14 +3313,14 @@ Section Witnesses.
 
   (* ---- still open ---- *)
   (* the code equates "commutative" with "scalar": a commutative vector (Laplace(H), Div(Grad(H))) is taken for a
-     scalar coefficient / scalar factor.  laplace(Laplace(H)*f) still gets the scalar product rule *)
+     scalar coefficient / scalar factor.  laplace(Laplace(H)*f) still gets the scalar product rule, whose cross term
+     2*Dot(Grad(Laplace(H)), Grad(f)) is the matrix . vector product sum_j d_i V_j d_j f instead of (grad f . nabla) V *)
   Lemma mk_laplace_refuted_commutative_vector :
     let e := GMul [G1 OLaplace (GVF "H"); f] in
     laplace_guard 2 e = false /\ exists r, mk_laplace 2 str_gt 50 e = Ok r /\
-    den 2 (Ok r) = None /\ (exists t, lit 2 (G1 OLaplace e) = Some t).
+    tens_differ (den 2 (Ok r)) (lit 2 (G1 OLaplace e)) = true.
   Proof.
-    split; [reflexivity|]. eexists. split; [vm_compute; reflexivity|]. split; [vm_compute; reflexivity|].
-    eexists. vm_compute. reflexivity.
+    split; [reflexivity|]. eexists. split; [vm_compute; reflexivity|]. vm_compute. reflexivity.
   Qed.
   Lemma mk_bil_refuted_commutative_vector :
     let a1 := GMul [G2 OCross GG (GVF "H"); G1 ODiv (G2 OOuter FF FF)] in     (* scalar (2-D cross) times vector *)
@@ -2904,6 +3330,34 @@ Section Witnesses.
     split; [reflexivity|]. eexists. split; [vm_compute; reflexivity|]. split; [vm_compute; reflexivity|].
     eexists. vm_compute. reflexivity.
   Qed.
+
+  (* ---- repaired: Dot imposes its canonical order (by str) only when neither factor may be matrix-valued.
+     matrix . vector and vector . matrix are different products (different fields in the free jet); both orders of
+     dot(grad(F), G) are now kept as written, vector . vector is still put in canonical order ---- *)
+  Lemma mk_dot_matrix_vector_repaired :
+    let A := G1 OGrad FF in
+    mk_bil 2 str_gt 50 ODot A GG = Ok (G2 ODot A GG) /\
+    mk_bil 2 str_gt 50 ODot GG A = Ok (G2 ODot GG A) /\
+    mk_bil 2 str_gt 50 ODot GG FF = Ok (G2 ODot FF GG) /\
+    shape_stable 2 A = true /\ shape_stable 2 GG = true /\
+    (exists t, lit 2 (G2 ODot A GG) = Some (Vec t)) /\
+    tens_differ (lit 2 (G2 ODot A GG)) (lit 2 (G2 ODot GG A)) = true.
+  Proof. repeat split; try (vm_compute; reflexivity). eexists. vm_compute. reflexivity. Qed.
+
+  (* historical (before the repair): the order by str was imposed unconditionally, and str(Grad(F)) > str(G):
+     dot(grad(F), G), the matrix . vector product sum_j d_i F_j G_j, was returned as Dot(G, Grad(F)) = (G . nabla) F *)
+  Lemma dot_matrix_vector_reordered_before_fix :
+    let A := G1 OGrad FF in
+    str_gt A GG = true /\ may_mat A = true /\
+    tens_differ (lit 2 (G2 ODot GG A)) (lit 2 (G2 ODot A GG)) = true.
+  Proof. repeat split; vm_compute; reflexivity. Qed.
+
+  (* the side is part of the atom: plus(F)[0] and minus(F)[0] are different fields *)
+  Lemma mk_getitem_keeps_side :
+    mk_getitem OPlus FF 0 = Ok (G1 OPlus (GComp "F" 0)) /\ mk_getitem OMinus FF 0 = Ok (G1 OMinus (GComp "F" 0)) /\
+    mk_getitem OMinus (GAdd [FF; GG]) 0 = Raise /\
+    tens_differ (lit 2 (G1 OPlus (GComp "F" 0))) (lit 2 (G1 OMinus (GComp "F" 0))) = true.
+  Proof. repeat split; vm_compute; reflexivity. Qed.
 
   (* ---- repaired in the interface operators: a restriction is multiplicative, Jump / Average keep a product of
      several factors, Jump and NormalDerivative of a product of coefficients are 0.  The former counter-examples
